@@ -114,11 +114,11 @@ Proof.
 Qed.
 
 Lemma si_mm_tail s m pr bt st now s' :
-  SI ap s -> find_pair (mm_app m) (mm_pair m) (pairs s) = Some pr ->
+  SI ap s ->
   existsb (fun t : Z * Z * Z => snd t <? 0) (bt ++ st) = false ->
   mm_tail s m pr bt st now = Ok s' -> SI ap s'.
 Proof.
-  intros [HA HS] _ Eneg H. unfold mm_tail, obind in H.
+  intros [HA HS] Eneg H. unfold mm_tail, obind in H.
   destruct (ssend s _ _ _ _) as [s2| |] eqn:E2; try discriminate.
   destruct (ssend s2 _ _ _ _) as [s3| |] eqn:E3; try discriminate.
   destruct (mm_place _ _ _ _ pr true bt _ (orders s3)) as [[st1 ids1] last1] eqn:M1.
@@ -198,7 +198,7 @@ Proof.
   - exact si_finish.
   - exact si_place.
   - intros; assumption.
-  - exact si_mm_tail.
+  - intros; eapply si_mm_tail; eauto.
   - exact si_fill_book.
   - exact si_mark_status.
   - exact si_esc_in.
